@@ -1404,7 +1404,7 @@ int KSI_PublicationRecord_clone(const KSI_PublicationRecord *rec, KSI_Publicatio
 		res = KSI_Utf8StringList_append(tmp->publicationRef, ref = KSI_Utf8String_ref(str));
 		if (res != KSI_OK) {
 			/* Cleanup the reference. */
-			KSI_Utf8String_ref(ref);
+			KSI_Utf8String_free(ref);
 
 			KSI_pushError(rec->ctx, res, NULL);
 			goto cleanup;
